@@ -40,10 +40,10 @@ type Query struct {
 }
 
 func (e *Engine) newState(notes map[string]bool) *State {
-	e.d.konst("alive0", "(Array Ref Bool)")
-	e.d.axiom("(not (select alive0 rnil))")
+	e.d.konst("now0", SInt)
+	e.d.fun("stamp", []Sort{SRef}, SInt)
 	return &State{cells: map[int]Val{}, heap: map[string]string{}, ghost: map[string]Val{}, globals: map[string]Val{},
-		calls: map[string]string{}, typed: map[string]bool{}, notes: notes, alive: "alive0"}
+		calls: map[string]string{}, typed: map[string]bool{}, notes: notes, alive: "now0"}
 }
 
 // VerifyFunc symbolically executes fn against its contract and returns the generated queries.
